@@ -38,7 +38,7 @@ pub fn gen(rng: &mut Rng, tier: Tier, out: &mut Vec<String>) {
         let door = ['r', 'b', 'r', 'r'][i % 4];
         let tgt = if i % 7 == 6 { "cb" } else { "fb" };
         let k = 1;
-        let near = *rng.pick(&[0.1f32, 1.0, 0.5, 2.0, 10.0]);
+        let near = *rng.pick(&[0.1f32, 1.0, 0.5, 2.0, 10.0, 0.001, 0.01]);
         let far = near * *rng.pick(&[2.0f32, 10.0, 100.0, 1000.0]);
         let ortho = rng.chance(1, 4);
         let focal = *rng.pick(&[0.5f32, 1.0, 2.0, 1.7320508]);
@@ -129,8 +129,9 @@ pub fn gen_needles(rng: &mut Rng, n: usize, out: &mut Vec<String>) {
         let rot = rng.below(3) as usize;
         pts.rotate_left(rot);
         let test = *rng.pick(&['n', 'l']);
+        let tgt = if i % 4 < 2 { "fb" } else { "cb" };
         let mut line = format!(
-            "scene door=r tgt=fb dims=16x16 vp=0,0,16,16 cull=n sort=n test={test} cw=1 dw=1 sh=0 proj=ortho,{m1},{m1},{m1},{one},{one},{one} zinit={} k=1 sel=0 v 3",
+            "scene door=r tgt={tgt} dims=16x16 vp=0,0,16,16 cull=n sort=n test={test} cw=1 dw=1 sh=0 proj=ortho,{m1},{m1},{m1},{one},{one},{one} zinit={} k=1 sel=0 v 3",
             h32(-1.0)
         );
         for (x, y) in pts {
@@ -145,7 +146,44 @@ fn main() {
     vharness::harness_main(gen_all, run);
 }
 
+/// Tiny worlds (near = 1e-4 … 1e-2, everything scaled along): triangles mostly inside the frustum
+/// with one or two vertices a few percent beyond a side plane. In clip space the overshoot is
+/// minute in absolute terms (w is tiny) but amounts to several pixels on a wide buffer — the case
+/// that breaks any absolute tolerance in the trivial-accept test.
+pub fn gen_grazing(rng: &mut Rng, n: usize, out: &mut Vec<String>) {
+    for i in 0..n {
+        let near = *rng.pick(&[1e-4f32, 1e-3, 1e-5, 1e-2]);
+        let far = near * *rng.pick(&[100.0f32, 1000.0]);
+        let focal = *rng.pick(&[1.0f32, 2.0, 0.5]);
+        let w = 40 + rng.below(40) as u32;
+        let h = 4 + rng.below(12) as u32;
+        let (l, t, r, b) = if i % 2 == 0 { (0, 0, w, h) } else { (3, 1, w - 4, h - 1) };
+        let aspect = (r - l) as f32 / (b - t) as f32;
+        let tgt = if i % 3 == 0 { "cb" } else { "fb" };
+        let mut line = format!(
+            "scene door=r tgt={tgt} dims={w}x{h} vp={l},{t},{r},{b} cull=n sort=n test=l cw=1 dw=1 sh=0 proj=persp,{},{},{} zinit={} k=1 sel=0 v 3",
+            h32(focal), h32(near), h32(far), h32(0.0)
+        );
+        for j in 0..3 {
+            let z = near * rng.f32_in(1.5, 8.0);
+            // inside, or beyond the left/right/top/bottom plane by delta (relative)
+            let delta = if j < 1 + (i % 2) { *rng.pick(&[0.005f32, 0.02, 0.05, 0.1]) } else { -rng.f32_in(0.05, 0.9) };
+            let side = if rng.bool() { 1.0 } else { -1.0 };
+            let (mut x, mut y) = (rng.f32_in(-0.8, 0.8) * z / focal, rng.f32_in(-0.8, 0.8) * z / (focal * aspect));
+            if rng.bool() {
+                x = side * (1.0 + delta) * z / focal;
+            } else {
+                y = side * (1.0 + delta) * z / (focal * aspect);
+            }
+            line += &format!(" {} {} {} {} {}", h32(x), h32(y), h32(z), h32(1.0), h32(rng.f32_in(-5.0, 5.0)));
+        }
+        line += " t 1 0 1 2";
+        out.push(line);
+    }
+}
+
 pub fn gen_all(rng: &mut Rng, tier: Tier, out: &mut Vec<String>) {
     gen(rng, tier, out);
+    gen_grazing(rng, if tier == Tier::Quick { 600 } else { 20_000 }, out);
     gen_needles(rng, if tier == Tier::Quick { 4000 } else { 100_000 }, out);
 }
